@@ -39,7 +39,7 @@ pred_ctx = dict(
         (r'is_nothrow_connectable_v<Successor, successor_receiver_t>', 'VF_CFG_nothrow_connect'),
         (r'operation_type::status::', 'status::'),
     ] + UNION_EVENTS + TRY_CATCH + [
-        (r'(?s)unifex::set_error\(\s*static_cast<Receiver&&>\(op->receiver_\),\s*std::current_exception\(\)\)', 'EV_set_error_exception(op)'),
+        (r'(?s)unifex::set_error\(\s*static_cast<Receiver&&>\((op_?)->receiver_\),\s*std::current_exception\(\)\)', r'EV_set_error_exception(\1)'),
         (r'(?s)unifex::set_error\(\s*static_cast<Receiver&&>\(op_->receiver_\),\s*static_cast<Error&&>\(error\)\)', 'EV_set_error(op_)'),
         (r'(?s)unifex::set_done\(\s*static_cast<Receiver&&>\(op_->receiver_\)\)', 'EV_set_done(op_)'),
     ],
